@@ -375,3 +375,31 @@ Print Assumptions C09_interp_options.
 Example C09_interp_options_ex :
   pose_interp ((fun (shortest : bool) (q : nat) (s : nat) => (shortest, q, s)) true) [5] [1; 2] = Ok [(true, 5, 1); (true, 5, 2)].
 Proof. reflexivity. Qed.
+
+(* ================================================================= the same object on both sides
+   x op x (one object under two names, or an operand that shares its values with the other) is the instance left = right of the
+   general theorems: the helper never fails and the result is op x x of every value.  Nothing new has to be modelled; the oracle
+   has to include the aliasing case (props/C09.py: alias_grid), because an implementation may short-cut on identity. *)
+Lemma zip_with_diag : forall A C (op : A -> A -> C) l, zip_with op l l = map (fun x => op x x) l.
+Proof. induction l as [|a l IH]; simpl; [reflexivity|now rewrite IH]. Qed.
+
+Theorem C09_binop_same_operand : forall A C (op : A -> A -> C) list1 l,
+  exists v, binop op list1 l (Seq l) = Ok v /\ to_list v = Some (map (fun x => op x x) l).
+Proof.
+  intros A C op list1 l. destruct (Nat.eq_dec (length l) 1) as [L1|L1].
+  - destruct l as [|a [|? ?]]; try discriminate L1. rewrite C09_binop_1x1. destruct list1; eexists; split; reflexivity.
+  - rewrite C09_binop_MxM by auto. eexists; split; [reflexivity|]. simpl. now rewrite zip_with_diag.
+Qed.
+Print Assumptions C09_binop_same_operand.
+
+Theorem C09_op2_same_operand : forall A C (op : A -> A -> C) l,
+  exists v, op2 op l (SameClass l) = Ok v /\ to_list v = Some (map (fun x => op x x) l).
+Proof.
+  intros A C op l. destruct (C09_binop_same_operand A C op true l) as [w [Hw Hd]].
+  pose proof (C09_op2_binop_agree A A C op true l l) as Ag. rewrite Hw in Ag.
+  destruct (op2 op l (SameClass l)) as [v|e]; [|contradiction]. exists v. split; [reflexivity|]. destruct Ag as [Ag _]. now rewrite Ag.
+Qed.
+Print Assumptions C09_op2_same_operand.
+Example C09_same_operand_ex : binop (fun x y : nat => Nat.eqb x y) false [3; 4; 5] (Seq [3; 4; 5]) = Ok (PList [true; true; true])
+  /\ op2 (@pair nat nat) [3; 4] (SameClass [3; 4]) = Ok (PList [(3, 3); (4, 4)]).
+Proof. split; reflexivity. Qed.
